@@ -37,6 +37,8 @@ def to_script(hist):
 def sig(rec, verdict):
     if verdict == "LaterWins:squash-hides-ancestry":
         return "squash-hides-ancestry"
+    if verdict == "LaterWins:shared-ancestor-recopied":
+        return "shared-ancestor-recopied"
     return verdict
 
 
